@@ -272,12 +272,20 @@ def run(ctx):
     exe = build(ctx, "asan")
     if exe is None:
         return "proof"
-    xz = os.path.join(vlib.build_dir("asan"), "xz")
+    # The corpus is produced by the xz built from the unmodified /repo when that build exists (a scratch worktree under
+    # test may have a broken encoder; C07 is about the decoder), else by the tree's own xz.
+    xz = os.path.join(vlib.LEANCACHE, "build-asan", "xz")
+    if not os.path.exists(xz):
+        xz = os.path.join(vlib.build_dir("asan"), "xz")
     # ---- corpus
     fdir = os.path.join(vlib.CACHE, "c07-files", "%s-seed%d" % (ctx.tier, ctx.seed))
     t = time.time()
     corpus = c07lib.Corpus(xz, fdir, rng)
-    entries = corpus.build(quick, vlib.REPO)
+    try:
+        entries = corpus.build(quick, vlib.REPO)
+    except RuntimeError as ex:
+        ctx.obligation_broken("corpus generation: the xz encoder failed while producing the C07 input files", str(ex))
+        return "proof"
     ctx.log("corpus: %d files in %.1fs" % (len(entries), time.time() - t))
     for e in entries:
         ctx.count("file-kind:" + e["kind"])
@@ -390,8 +398,10 @@ def run_cases(ctx, exe, cases, label, model_ok, tsan=False):
         "tsan_reports": ntsan, "h3_hook_present": hook_seen, "wall_s": round(time.time() - t, 1)}
     ctx.log("%s: %d runs, %d failing, %d distinct schedules, %.1fs" % (label, len(cases), nbad, len(shashes), time.time() - t))
     if trace_jobs:
-        if ctx.quick() and len(trace_jobs) > 1500:
-            trace_jobs = trace_jobs[::max(1, len(trace_jobs) // 1500)]
+        if ctx.quick():
+            trace_jobs = [j for j in trace_jobs if len(j[3]["ev"]) < 150000]
+            if len(trace_jobs) > 1000:
+                trace_jobs = trace_jobs[::max(1, len(trace_jobs) // 1000)]
         trace_inclusion(ctx, trace_jobs, label)
     return nbad
 
@@ -404,7 +414,10 @@ def trace_inclusion(ctx, jobs, label):
     lines = []
     for e, p, line, r in jobs:
         lines.append("trace threads=%s failfast=%d timed=%d ev=%s" % (p["threads"], 1 if int(p["flags"]) & F_FAILFAST else 0, 1 if int(p["timeout"]) else 0, r["ev"]))
-    parts = vlib.chunks(list(range(len(lines))), vlib.NCPU)
+    # balance by trace length: longest first, dealt round-robin over 2*NCPU model processes
+    order = sorted(range(len(lines)), key=lambda i: -len(lines[i]))
+    nparts = max(1, min(len(lines), 2 * vlib.NCPU))
+    parts = [order[k::nparts] for k in range(nparts)]
     res = vlib.par_map(lambda ix: vlib.run_lines([mexe], [lines[i] for i in ix]), parts)
     rejected = 0
     answered = 0
